@@ -34,13 +34,20 @@ def mc_cfg():
 
 
 # ---------------------------------------------------------------- rendering
-SHAPES = ["none", "scalars", "nested_list", "nested_map", "lazy_inside", "eager_inside"]
+SHAPES = ["none", "scalars", "nested_list", "nested_map", "lazy_inside", "eager_inside", "type_inside"]
 
 
 def shape_args(shape, form, i):
     """-> (yaml text of the arguments in the given form, expected args tuple, expected kwargs dict)"""
     if form == "tagbare" or shape == "none":
         return ("{}" if form in ("tagmap", "typemap") else "[]"), (), {}
+    if shape == "type_inside":
+        if form != "typemap":
+            shape = "nested_map"   # only __type__ elements have their arguments translated
+        else:
+            # a nested __type__ mapping among the arguments is constructed with ITS items only
+            return ("{a: {__type__: vp.fx_translate.okf_%d, x: %d}, b: [{__type__: vp.fx_translate.okc_%d}]}" % (900 + i, i, 950 + i), (),
+                    {"a": ("Made", 900 + i, (), {"x": i}), "b": [("Made", 950 + i, (), {})]})
     if form == "tagseq":
         table = {
             "scalars": ("[%d, 'x', 2.5, true, null]" % i, (i, "x", 2.5, True, None)),
@@ -101,6 +108,19 @@ def render(case):
     return "\n".join(lines) + "\n", expect
 
 
+def plain(x):
+    """objects made by the fixture factories -> comparable tuples"""
+    from vp.fx_translate import Made
+
+    if isinstance(x, Made):
+        return ("Made", x.ident, plain(tuple(x.args)), plain(dict(x.kwargs)))
+    if isinstance(x, dict):
+        return {k: plain(v) for k, v in x.items()}
+    if isinstance(x, (list, tuple)):
+        return type(x)(plain(v) for v in x)
+    return x
+
+
 def execute(case):
     if FIX not in sys.path:
         sys.path.insert(0, FIX)
@@ -144,7 +164,7 @@ def execute(case):
         if kind.startswith(("VLazy", "VEager")):
             continue
         ea, ek = expect.get(pos, ((), {}))
-        events.append({"e": "Construct", "i": pos, "argsok": bool(tuple(args) == tuple(ea) and dict(kwargs) == dict(ek))})
+        events.append({"e": "Construct", "i": pos, "argsok": bool(plain(tuple(args)) == plain(tuple(ea)) and plain(dict(kwargs)) == plain(dict(ek)))})
     events.append(end)
     return {"n": case["n"], "forms": case["forms"], "failpos": case["failpos"], "seed": case["seed"], "events": events, "yaml": text, "exc": exc}
 
